@@ -2908,6 +2908,11 @@ func (dsc *dataStoreCommand) setRemove(keyName string, members []string) (output
 		}
 	}
 
+	// a set never exists empty
+	if m.count == 0 {
+		dsc.ds.data.remove(keyName)
+	}
+
 	output.data = respInt(removals)
 	return
 }
